@@ -308,7 +308,44 @@ def check_estimate(ctx, case):
 
 
 # ---------------------------------------------------------------- workload
+def check_threads(ctx, cases=None, rounds=3):
+    """Whether a temperature is answered or refused is a function of (object,
+    T): shared correlations probed inside, on and outside their ranges by
+    four threads at once answer and refuse as for a lone caller."""
+    from vmon.core import threads as TH
+    from vmon.props.c05 import build
+    if cases is None:
+        cases = []
+        for k, n in enumerate((3, 4, 7, 12)):
+            r = ctx.sub_rng('c06thr', ctx.shard, n)
+            cases.append(tables.make_case(r, n, tables.PLACEMENTS[
+                (k + ctx.shard) % len(tables.PLACEMENTS)],
+                tables.RANGES[k % len(tables.RANGES)], 'sorted'))
+
+    def make_jobs():
+        jobs = []
+        for ci, case in enumerate(cases):
+            for surface in ('raw', 'incomplete'):
+                obj = build(case, surface)
+                rg = obj.get_range()
+                lo, hi = rg if rg is not None else (min(case['Ts']),
+                                                    max(case['Ts']))
+                probes = [lo, hi, 0.5 * (lo + hi), lo * (1 - 1e-12),
+                          hi * (1 + 1e-12), lo - 50.0, hi + 50.0]
+                for name in ('get_CpoR', 'get_HoRT', 'get_SoR', 'get_GoRT'):
+                    for T in probes:
+                        jobs.append(((ci, surface, name, T),
+                                     lambda f=getattr(obj, name), T=T:
+                                     repr(float(f(T)))))
+        return jobs
+    res = TH.stress(make_jobs, nthreads=4, rounds=rounds)
+    TH.judge(ctx, res, 'range checks on shared correlations',
+             {'what': 'thread stress', 'cases': cases})
+
+
 def run_shard(ctx):
+    if ctx.shard % 4 == 2:
+        check_threads(ctx)
     i = 0
     grid = tables.class_grid(16)
     reps = 1 if ctx.tier == 'quick' else 8
@@ -387,6 +424,8 @@ def run_shard(ctx):
 
 
 def replay(ctx, case):
+    if case.get('what') == 'thread stress':
+        return check_threads(ctx, case['cases'], rounds=12)
     if 'shipped' in case:
         check_shipped_group(ctx, *case['shipped'])
     elif 'mapping' in case:
